@@ -434,7 +434,7 @@ func c10One(r *ev.Run, l *lite.DB, c *c10Case) {
 		r.Sample(art)
 	}
 	stmt := strings.Join(c.stmts, "; ")
-	if strings.Join(got.Cols, ",") != strings.Join(want.Cols, ",") {
+	if !strings.EqualFold(strings.Join(got.Cols, ","), strings.Join(want.Cols, ",")) {
 		r.Violation("C10:columns"+cls, fmt.Sprintf("%s: columns %v, SQLite %v", stmt, got.Cols, want.Cols), art)
 		return
 	}
